@@ -131,6 +131,23 @@ def call_value(folder: "Folder", f: Any, args: list, kwargs: Optional[dict] = No
 
             return _BoundMethod(f, m).call(folder, args, kwargs)
         raise Unfoldable("not callable: %r" % (f,))
+    if isinstance(f, (ClassInfo, _TypeOf)):
+        from .absint import _RepoShim, construct
+
+        from .absint import _Const
+
+        k_ = f if isinstance(f, ClassInfo) else f.cls
+        if folder.hook is not None:
+            # a rule that models constructions of this class (by the name the call is written with) sees this one too
+            expr = ast.Call(func=ast.Name(id=k_.name, ctx=ast.Load()), args=[_Const(v_) for v_ in args], keywords=[ast.keyword(arg=kk, value=_Const(vv)) for kk, vv in kwargs.items()])
+            env_ = dict(folder.env)
+            env_[k_.name] = k_  # the class is in scope under its own name for whoever looks the callee up
+            sub_ = Folder(env_, folder.repo, folder.mod, folder.cls, folder.hook)
+            sub_.depth = folder.depth
+            r_ = folder.hook(expr, sub_)
+            if r_ is not NotImplemented:
+                return r_
+        return construct(_RepoShim(folder.repo), k_, *args, hook=folder.hook, **kwargs)
     if f is None:
         from .absint import Raised
 
@@ -559,7 +576,10 @@ class Folder:
                 return getattr(recv, m)(*vals)
             if isinstance(recv, (set, frozenset)) and m in ("union", "intersection"):
                 return getattr(frozenset(recv), m)(*[frozenset(v) for v in vals])
-        raise Unfoldable(unparse(e))
+        # any other callee: the same call with the unpacked values as positional arguments
+        from .absint import _Const
+
+        return self.fold(ast.Call(func=e.func, args=[_Const(v_) for v_ in vals], keywords=[]))
 
     def _bind_target(self, t: ast.AST, v: Any, env: Dict[str, Any]) -> None:
         if isinstance(t, ast.Name):
@@ -729,6 +749,13 @@ class Folder:
                     return fv0.call(self, [self.fold(a) for a in args])
                 if type(fv0).__name__ == "_BoundMethod":
                     return fv0.call(self, [self.fold(a) for a in args], {k.arg: self.fold(k.value) for k in e.keywords if k.arg})
+            if isinstance(recv, (ClassInfo, _TypeOf)) and self.repo is not None and e.func.attr != "__init__":
+                k_ = recv if isinstance(recv, ClassInfo) else recv.cls
+                m_ = self.repo.lookup_method(k_, e.func.attr)
+                if m_ is not None and (m_.is_static or m_.is_classmethod):
+                    from .absint import FnRef
+
+                    return FnRef(self.repo, m_, self.hook)(*[self.fold(a) for a in args], **{k.arg: self.fold(k.value) for k in e.keywords if k.arg})
             if type(recv).__name__ == "AObj":
                 from .absint import aobj_member
 
@@ -773,7 +800,7 @@ class Folder:
                 repo_callee = None
             if not isinstance(repo_callee, (FuncInfo, ClassInfo)):
                 repo_callee = None
-        if e.keywords and repo_callee is None and name not in ("int", "dict", "itertools.product", "sorted", "max", "min", "functools.partial", "partial", "int.from_bytes") and not (isinstance(e.func, ast.Name) and isinstance(self.env.get(e.func.id), Abstract)) and not (isinstance(e.func, ast.Attribute) and dotted(e.func) and dotted(e.func).split(".")[0] in self.env):
+        if e.keywords and repo_callee is None and name not in ("int", "dict", "enumerate", "itertools.product", "sorted", "max", "min", "functools.partial", "partial", "int.from_bytes") and not (isinstance(e.func, ast.Name) and isinstance(self.env.get(e.func.id), Abstract)) and not (isinstance(e.func, ast.Attribute) and dotted(e.func) and dotted(e.func).split(".")[0] in self.env):
             raise Unfoldable(unparse(e))
         if isinstance(e.func, ast.Attribute) and e.func.attr == "to_bytes" and 1 <= len(args) <= 2:
             v = self.fold(e.func.value)
@@ -842,6 +869,28 @@ class Folder:
                 raise Unfoldable(unparse(e))
         if name == "object" and not args:
             return _SENTINELS.setdefault(id(e), object())
+        if name == "getattr" and len(args) in (2, 3):
+            v = self.fold(args[0])
+            a = self.fold(args[1])
+            if isinstance(a, str) and not isinstance(a, Abstract):
+                if type(v).__name__ == "AObj":
+                    from .absint import aobj_member
+
+                    if a in v.__dict__ and not a.endswith("_"):
+                        return v.__dict__[a]
+                    try:
+                        return aobj_member(self, v, a)
+                    except Unfoldable:
+                        if len(args) == 3:
+                            return self.fold(args[2])
+                        from .absint import Raised
+
+                        raise Raised("AttributeError", e)
+                if isinstance(v, Abstract) and hasattr(v, a):
+                    return getattr(v, a)
+                if isinstance(v, Abstract) and len(args) == 3:
+                    return self.fold(args[2])
+            raise Unfoldable(unparse(e))
         if name == "hasattr" and len(args) == 2:
             v = self.fold(args[0])
             a = self.fold(args[1])
@@ -962,7 +1011,8 @@ class Folder:
                 raise Unfoldable(unparse(e))
             return list(range(*vals))
         if name == "enumerate":
-            return list(enumerate(self.fold(args[0]), *([self.fold(args[1])] if len(args) > 1 else [])))
+            st_ = [self.fold(args[1])] if len(args) > 1 else [self.fold(k.value) for k in e.keywords if k.arg == "start"]
+            return list(enumerate(self.fold(args[0]), *st_))
         if name == "zip":
             cols = [self.fold(a) for a in args]
             finite = [list(c) for c in cols if not isinstance(c, _Repeat)]
@@ -970,9 +1020,17 @@ class Folder:
             return list(zip(*[([c.value] * n_ if isinstance(c, _Repeat) else list(c)) for c in cols]))
         if name == "reversed":
             return list(reversed(list(self.fold(args[0]))))
+        if name in ("itertools.filterfalse", "filterfalse") and len(args) == 2:
+            f = self.fold(args[0])
+            vals = list(self.fold(args[1]))
+            return [v_ for v_ in vals if not (bool(v_) if f is None else call_value(self, f, [v_]))]
         if name in ("map", "filter") and len(args) == 2:
             f = self.fold(args[0])
             vals = list(self.fold(args[1]))
+            if f is None and name == "filter":
+                return [v_ for v_ in vals if v_]
+            if f is Fraction and name == "map" and all(isinstance(v_, (int, Fraction)) and not isinstance(v_, bool) for v_ in vals):
+                return [Fraction(v_) for v_ in vals]
             if isinstance(f, ClassInfo) and name == "map":
                 from .absint import _Const
 
